@@ -1,7 +1,6 @@
 //! Driving html5ever's parser over a chunk schedule with a given configuration.
 
 use html5ever::driver::{parse_document, parse_fragment, ParseOpts, Parser};
-use html5ever::tendril::TendrilSink;
 use html5ever::tokenizer::TokenizerOpts;
 use html5ever::tree_builder::{QuirksMode, TreeBuilderOpts, TreeSink};
 use html5ever::{Attribute, LocalName, Namespace, QualName};
@@ -176,9 +175,11 @@ pub fn drive<S: TreeSink>(
             leftover = true;
         }
     }
-    // finish() would spin on feed() forever if the queue were not empty
+    // end of input by hand (not through the driver's finish(), which the driver-path clauses of
+    // C03 compare against this): tokenizer end, then the sink's own finish
     while parser.input_buffer.pop_front().is_some() {}
-    let out = parser.finish();
+    parser.tokenizer.end();
+    let out = parser.tokenizer.sink.sink.finish();
     (out, results, leftover)
 }
 
@@ -229,6 +230,8 @@ pub fn drive_xml<S: TreeSink>(
         }
         at_pause(&parser, None);
     }
-    let out = parser.finish();
+    // end of input by hand (the driver's finish() is what C15's driver-path clause tests)
+    parser.tokenizer.end();
+    let out = parser.tokenizer.sink.sink.finish();
     (out, leftover)
 }
